@@ -319,13 +319,13 @@ def _getcwd(ex, e, args, kwargs, p):
 
 @lib("copy.deepcopy", "A-cpython")
 def _deepcopy(ex, e, args, kwargs, p):
-    # value semantics: an equal structure (sharing/aliasing is the business of the frame engine)
-    return [(args[0], p)]
+    # value semantics: an equal structure (axiom DEEPCOPY(x) == x); a fresh object for the frame engine
+    return [(app("DEEPCOPY", asV(args[0])), p)]
 
 
 @lib("copy.copy", "A-cpython")
 def _copy(ex, e, args, kwargs, p):
-    return [(args[0], p)]
+    return [(app("SHALLOWCOPY", asV(args[0])), p)]
 
 
 @lib("warnings.warn", "A-cpython")
@@ -490,6 +490,8 @@ def axioms():
     A(FA([x], z3.Implies(intk(x), code("py_float", x) == 0), code("py_float", x)))
     A(FA([x], z3.Not(intk(pf)), pf))
     A(FA([x], z3.Implies(intk(x), app("RECIP", pf) == app("RECIP", x)), app("RECIP", pf)))
+    A(FA([x], app("DEEPCOPY", x) == x, app("DEEPCOPY", x)))
+    A(FA([x], app("SHALLOWCOPY", x) == x, app("SHALLOWCOPY", x)))
     # x ** y for integer kinds with y < 0, computed in floats, is the property-level value POWF(x, y)
     A(FA([x, y], z3.Implies(z3.And(intk(x), intk(y), pred("is_negative", y)), app("POW", pf, y) == app("POWF", x, y)), app("POW", pf, y)))
     return ax
